@@ -107,7 +107,8 @@ def random_config(rng, allow_tblname_finding=False):
 class C12(Prop):
     id = 'C12'
     theorems = ['Continuum.Schema.c12_derive_ok', 'Continuum.Schema.c13_no_column',
-                'Continuum.Schema.include_beats_exclude']
+                'Continuum.Schema.include_beats_exclude', 'Continuum.Alias.byName_reflects', 'Continuum.Alias.aliasNew_none',
+                'Continuum.Alias.byKey_finds_other']
     workers = 12
     chunk = 2
     rule = ('sampled products of strategy x column-name options x table-name format x schema x include/exclude sets x '
